@@ -429,13 +429,17 @@ def spec_subsumes(b, a, o):
   return ok
 
 
-def _mk_subsumes(name, src_any, dst_any, tier="quick"):
+def _mk_subsumes(name, src_any, dst_any, tier="quick", rng=(0, 32)):
+  """rng: the range of the command's wildcarded-bit count on the 'any' side covered by this unit (the four ranges together are
+  0..32; split only so that the case analysis runs on four cores instead of one)"""
   def u(b):
     _c03._B = b
     a, ai = build_match(b, "a.")
     o, oi = build_match(b, "o.")
     b.assume(prereq_ok(b, ai))
     b.assume(prereq_ok(b, oi))
+    w_any = ai.src_w if src_any else ai.dst_w
+    b.assume(b.And(w_any >= rng[0], w_any <= rng[1]))
     if not src_any:
       b.assume(b.Or(ai.src_w == 0, ai.src_w == 32))
       b.assume(b.Or(oi.src_w == 0, oi.src_w == 32))
@@ -453,8 +457,9 @@ def _mk_subsumes(name, src_any, dst_any, tier="quick"):
        timeout_s=1200)(u)
 
 
-_mk_subsumes("nonstrict_selection_is_subsumption_src_prefixes", True, False)
-_mk_subsumes("nonstrict_selection_is_subsumption_dst_prefixes", False, True)
+for _lo, _hi in ((0, 8), (9, 16), (17, 24), (25, 32)):
+  _mk_subsumes("nonstrict_selection_is_subsumption_src_prefixes_%d_to_%d_bits_wild" % (_lo, _hi), True, False, rng=(_lo, _hi))
+  _mk_subsumes("nonstrict_selection_is_subsumption_dst_prefixes_%d_to_%d_bits_wild" % (_lo, _hi), False, True, rng=(_lo, _hi))
 
 
 # ------------------------------------------------------------------ the selection predicate itself (callee of the units above)
